@@ -18,7 +18,7 @@ import (
 type cliAction string
 
 // racing client actions (after one subscription "1" has been established)
-var c18ClientAlphabet = []cliAction{"stop1", "stop1again", "terminate", "close", "malformed", "unknown", "start-invalid", "truncated", "start2", "stop-unknown", "restart1"}
+var c18ClientAlphabet = []cliAction{"stop1", "stop1again", "terminate", "close", "malformed", "unknown", "start-invalid", "start-no-payload", "truncated", "start2", "stop-unknown", "restart1"}
 
 const c18SubTick = "subscription { tick }"
 const c18SubCross = "subscription { n1Changed { name phone } }"
@@ -156,6 +156,9 @@ func c18Harness(h *gwHarness, sc c18Scenario) explore.Harness {
 						ended = true
 					case "start-invalid":
 						writeClientFrame(cli, clientMsg("start", "9", map[string]interface{}{"query": "subscription { nope }"}))
+						ended = true
+					case "start-no-payload":
+						writeClientFrame(cli, clientMsg("start", "9", nil))
 						ended = true
 					case "truncated":
 						cli.Write([]byte{0x81, 0x80 | 50, 1, 2, 3, 4, 'x', 'y'})
@@ -357,7 +360,7 @@ func c18Scenarios(tier string) []c18Scenario {
 func init() {
 	Specs["C18"] = &Spec{
 		ID: "C18",
-		Rule: "scenario = (client script over {stop, stop again, stop unknown id, terminate, abrupt close, malformed JSON, unknown type, start with invalid query, truncated frame, second start, a start that uses the id of the stopped - or of the still running - subscription again} of length <=2 after one established subscription; " +
+		Rule: "scenario = (client script over {stop, stop again, stop unknown id, terminate, abrupt close, malformed JSON, unknown type, start with invalid query, start without payload, truncated frame, second start, a start that uses the id of the stopped - or of the still running - subscription again} of length <=2 after one established subscription; " +
 			"upstream script per subscription over {event, complete, error, disconnect, error payload} of length <=1 (thorough <=2); heartbeat ticker may fire <=1 (2) times as an environment move; plus a slow reader: the client's receive buffer holds 16 bytes (writes deliver what fits and block, a Write under way keeps other writers out, SetWriteDeadline is a virtual-time timer that fails blocked writes), the client reads nothing from 0 to 6.5 s while events arrive and the 4 s heartbeat comes due, reads on and terminates at 10 s); the real subscriptionHandler, " +
 			"subscriptionEntry.Listen/Close and MultiOpQueryer.Subscribe reader/closer goroutines (rewritten sources) run over scheduler-aware pipes with a hijacked websocket upgrade and a gobwas upstream; every schedule with <=1 (2) preemption " +
 			"inside the window that opens once the first subscription is established is executed (state-cached); invariants: no fatal/panic, no deadlock, handler returns, every goroutine started for the connection terminates, " +
